@@ -183,7 +183,7 @@ def run_l2(report, tier, seed, state):
     mcfgs = el.mmode_configs(tier)
     try:
         res = l2.mmode(el.LANE.m_module, [{"c": x["c"], "m": x["m"], "env": x["env"]} for x in mcfgs], INVS, [],
-                       timeout=1500 if tier == "quick" else 3600, include=el.INCLUDE)
+                       timeout=1500 if tier == "quick" else 1200, include=el.INCLUDE)
     except MachineryError as ex:        # the lane never fails a check: TLC killed / timed out on the model
         report.note("L2 M-mode (event) could not be evaluated: %s" % str(ex).split("\n")[0][:200])
         res = None
